@@ -115,6 +115,44 @@ def auto (hostFilter : List Nat) : Nat → List Cand → List (Nat × Method) ×
         | .ok => ([(i, m)], some i)
         | _ => let (as, r) := auto hostFilter (i + 1) cs; ((i, m) :: as, r)
 
+/-! ### the scanner's response callback -/
+
+/-- One received search response: extended or not, the control endpoint it names, its DIBs. -/
+structure Resp where
+  ext : Bool
+  ep : Nat
+  dibs : List Dib
+  deriving Repr
+
+def firstSupp : List Dib → Option (List (Nat × Nat))
+  | [] => none
+  | .supp f :: _ => some f
+  | _ :: ds => firstSupp ds
+
+/-- "skip non-extended SearchResponse for Core-V2 devices": a plain SearchResponse cannot carry the secured-families DIB;
+a device that lists CORE in version 2 **or later** answers the extended request too, and only that answer is used. -/
+def skipPlain (r : Resp) : Bool :=
+  !r.ext && (match firstSupp r.dibs with
+             | some fams => supports fams ServiceFamily.core (some 2)
+             | none => false)
+
+/-- `found_gateways[control_endpoint] = gateway`: an existing key keeps its place -/
+def upsert (found : List (Nat × GW)) (ep : Nat) (g : GW) : List (Nat × GW) :=
+  if found.any (·.1 == ep) then found.map (fun e => if e.1 == ep then (ep, g) else e) else found ++ [(ep, g)]
+
+/-- `GatewayScanner._response_rec_callback`: returns the table and the descriptor put on the queue (if any). -/
+def scanStep (f : Filter) (found : List (Nat × GW)) (r : Resp) : List (Nat × GW) × Option (Nat × GW) :=
+  if skipPlain r then (found, none) else
+  let g := parseDibs r.dibs
+  if filterMatch f true g then (upsert found r.ep g, some (r.ep, g)) else (found, none)
+
+def scanAll (f : Filter) : List (Nat × GW) → List Resp → List (Nat × GW) × List (Nat × GW)
+  | found, [] => (found, [])
+  | found, r :: rs =>
+    let (found', y) := scanStep f found r
+    let (fin, ys) := scanAll f found' rs
+    (fin, (match y with | some e => [e] | none => []) ++ ys)
+
 /-! ### line protocol -/
 
 def optB (s : Char) : Option (Option Bool) :=
@@ -187,6 +225,25 @@ def handle : List String → String
     match parseGW g with
     | some g => match choose g with | some m => m.render | none => "none"
     | none => "bad-op"
+  | ["scan", f, rs] =>
+    let parseResp (t : String) : Option Resp :=
+      match t.splitOn "@" with
+      | [k, rest] =>
+        match rest.splitOn "=" with
+        | [ep, ds] => do
+          let ep ← ep.toNat?
+          let dibs ← (if ds == "-" then [] else ds.splitOn ";").mapM parseDibTok
+          if k == "P" then some ⟨false, ep, dibs⟩ else if k == "E" then some ⟨true, ep, dibs⟩ else none
+        | _ => none
+      | _ => none
+    match parseFilter f, (if rs == "-" then [] else rs.splitOn "|").mapM parseResp with
+    | some f, some rs =>
+      let (fin, ys) := scanAll f [] rs
+      let show1 (e : Nat × GW) := s!"{e.1}:{e.2.render}"
+      let a := ",".intercalate (ys.map show1)
+      let b := ",".intercalate (fin.map show1)
+      s!"{if a.isEmpty then "-" else a} => {if b.isEmpty then "-" else b}"
+    | _, _ => "bad-op"
   | ["auto", hf, cs] =>
     let hf? := if hf == "-" then some [] else (hf.splitOn ",").mapM String.toNat?
     let cs? := (if cs == "-" then [] else cs.splitOn ";").mapM parseCand
